@@ -63,7 +63,35 @@ func applyNetPolicies(ctx context.Context, kc kubernetes.Interface, b *netPolBui
 		}
 	}
 
-	return err
+	if err != nil || !b.settings.NetworkPoliciesEnabled {
+		return err
+	}
+
+	// Remove policies generated for a previous version of the manifest that are no longer
+	// generated now (e.g. a service stopped exposing a port globally): left in place they
+	// would keep admitting traffic the tenant has withdrawn.
+	current := make(map[string]struct{}, len(policies))
+	for _, pol := range policies {
+		current[pol.Name] = struct{}{}
+	}
+	existing, err := kc.NetworkingV1().NetworkPolicies(b.ns()).List(ctx, metav1.ListOptions{
+		LabelSelector: akashManagedLabelName + "=true",
+	})
+	if err != nil {
+		return err
+	}
+	for _, pol := range existing.Items {
+		if _, ok := current[pol.Name]; ok {
+			continue
+		}
+		err = kc.NetworkingV1().NetworkPolicies(b.ns()).Delete(ctx, pol.Name, metav1.DeleteOptions{})
+		metricsutils.IncCounterVecWithLabelValuesFiltered(kubeCallsCounter, "networking-policies-delete", err, errors.IsNotFound)
+		if err != nil && !errors.IsNotFound(err) {
+			return err
+		}
+	}
+
+	return nil
 }
 
 // TODO: re-enable.  see #946
